@@ -141,3 +141,61 @@ def guard_requires(e, pol, pred):
         rs = [guard_requires(v, pol, pred) for v in e.values]
         return all(rs) if every else any(rs)
     return bool(pred(e, pol))
+
+
+# ---------------------------------------------------------------------------
+# path-aware def-use closure
+# ---------------------------------------------------------------------------
+from ..flow import GuardMap as _GM      # noqa: E402
+
+
+def _exclusive(c1, c2):
+    """Two guard chains that contain the same if-test with opposite polarity."""
+    seen = {}
+    for g in c1:
+        if g.kind == 'if':
+            seen[id(g.test)] = g.pol
+    for g in c2:
+        if g.kind == 'if' and id(g.test) in seen and seen[id(g.test)] != g.pol:
+            return True
+    return False
+
+
+def dep_closure_at(fnode, use, gm=None):
+    """Like dep_closure(names in `use`), but a definition in an if-arm that excludes
+    the arm of its use (same test, opposite polarity) is not followed."""
+    gm = gm or _GM(fnode)
+    defs = {}
+    for n in ast.walk(fnode):
+        tg, val = [], None
+        if isinstance(n, ast.Assign):
+            tg, val = n.targets, n.value
+        elif isinstance(n, ast.AugAssign):
+            tg, val = [n.target], n.value
+        elif isinstance(n, (ast.For, ast.comprehension)):
+            tg, val = [n.target], n.iter
+        if val is None:
+            continue
+        for t in tg:
+            for x in ast.walk(t):
+                if isinstance(x, ast.Name):
+                    defs.setdefault(x.id, []).append((n, val))
+    out = set()
+    work = [(nm, gm.chain(use) or ()) for nm in names_in(use)]
+    seen = set()
+    while work:
+        nm, ch = work.pop()
+        out.add(nm)
+        for d, val in defs.get(nm, ()):
+            dch = gm.chain(d) if not isinstance(d, ast.comprehension) else ch
+            if dch is None:
+                dch = ()
+            if _exclusive(ch, dch):
+                continue
+            key = (id(d), nm)
+            if key in seen:
+                continue
+            seen.add(key)
+            for y in names_in(val):
+                work.append((y, dch))
+    return out
